@@ -351,7 +351,8 @@ def run(run):
         fi = np.finfo(t)
         cfgs = []
         for sizes in ((6, 7, 8), (9, 6, 13)):
-            for mnk, mxk in (("None", "None"), (key(t(-2)), key(t(3))), (key(t(0.5)), key(fi.max)), (key(-fi.max), key(t(-1))), ("None", key(t(7)))):
+            for mnk, mxk in (("None", "None"), (key(t(-2)), key(t(3))), (key(t(0.5)), key(fi.max)), (key(-fi.max), key(t(-1))), ("None", key(t(7))),
+                             (key(t(0)), key(t(10))), (key(t(-10)), key(t(0))), (key(t(0)), "None"), ("None", key(t(0))), (key(t(-0.0)), key(t(5))), (key(t(-3)), key(t(-0.0)))):
                 for flags in ((True, True, False, False, True, False, True), (False, False, True, False, False, True, True), (True, True, True, True, True, False, True)):
                     cfgs.append((list(sizes), mnk, mxk, list(flags)))
         for i in range(0, len(cfgs), 6):
